@@ -34,7 +34,8 @@ Inductive stmt :=
 | SUse (n : name)                                 (* an output that loads the name n *)
 | SIf (body els : list stmt)
 | SFor (recursive : bool) (body els : list stmt)
-| SInline (w : bool) (body : list stmt)           (* with (true) / filter block, block set, scope (false): an inner frame *)
+| SInline (w : bool) (body : list stmt)           (* an inner frame: with / filter block / block set (true: also a scope of the
+                                                     undeclared-name visitor) or a bare nodes.Scope (false) *)
 | SSame (body : list stmt)                        (* ScopedEvalContextModifier: body compiled in the very same frame
                                                      (the autoescape tag wraps it in a Scope: SInline false [SSame b]) *)
 | SMacro (params : list name) (body : list stmt)
@@ -82,7 +83,7 @@ Definition extras (fc lf bf : bool) : list name :=
    marks it found; any other occurrence of a name (an assignment target) stops tracking it; blocks
    are not entered; the visit stops once every tracked name is found.  A nested scope (the body of
    a for loop with its target, its else branch, a macro or call block with its parameters, a with
-   block with its targets) is visited by a fresh visitor that starts from the names tracked at that
+   block with its targets, the body of a filter block or block set, each branch of an if) is visited by a fresh visitor that starts from the names tracked at that
    point: what it stops tracking is forgotten when the scope ends, what it found is added, and the
    outer visit stops when everything still tracked has been found.  State: (tracked, found, stopped). *)
 Definition ustate := (list name * list name * bool)%type.
@@ -115,7 +116,7 @@ Fixpoint uscan (s : stmt) (u : ustate) {struct s} : ustate :=
   | SUse n => u_load n u
   | SAssignT false t => u_stores (tgt_names t) u
   | SAssignT true t => u_scope (fun v => v) (u_scope (u_stores (tgt_names t)) u)
-  | SIf b e => uscans e (uscans b u)
+  | SIf b e => u_scope (uscans e) (u_scope (uscans b) u)
   | SFor _ b e => u_scope (uscans e) (u_scope (uscans b) u)
   | SInline true b => u_scope (uscans b) u
   | SInline false b | SSame b => uscans b u
